@@ -208,10 +208,14 @@ def wrapper_job(interp, c, case):
         if is_sym(hv):
             syms["h0_%d" % j] = hv
     if region == "inside":
-        c.prove(r == s_log(d) + L if is_sym(r) else False, "%s/%s posterior = log-prior + log-likelihood" % (cls, fam),
-                info={"sig": "%s wrapper inside" % cls, "what": "%s/%s returns %r" % (cls, fam, r)})
-        c.prove(len(calls) == 2 and calls[0] == {"p0": 1.0, "p1": 1.0, "p2": 1.0} and list(calls[1]) == ["p0"],
-                "%s resets parameters to defaults, then applies theta" % cls)
+        ok = c.prove(r == s_log(d) + L if is_sym(r) else False, "%s/%s posterior = log-prior + log-likelihood" % (cls, fam),
+                     info={"sig": "%s wrapper inside" % cls, "what": "%s/%s returns %r" % (cls, fam, r)})
+        if ok is False:
+            c.failures[-1]["replay"] = dict(rp, values=model_env(c, c.failures[-1]["model"], syms))
+        ok = c.prove(len(calls) == 2 and calls[0] == {"p0": 1.0, "p1": 1.0, "p2": 1.0} and list(calls[1]) == ["p0"],
+                     "%s resets parameters to defaults, then applies theta" % cls)
+        if ok is False:
+            c.failures[-1]["replay"] = dict(rp, values=model_env(c, c.failures[-1]["model"], syms))
     else:
         ok = c.prove(r == float("-inf") if not is_sym(r) else False, "%s/%s posterior is -inf outside the support" % (cls, fam),
                      info={"sig": "%s/%s wrapper outside" % (cls, fam), "what": "%s/%s returns %r outside support" % (cls, fam, r)})
